@@ -20,7 +20,10 @@ EXPLANATION = (
     "answered 400 and CannotDeleteParentResourceProvider 409. The forest "
     "invariant over histories and the correctness of get_subtree are not "
     "decided.")
-ASSUMPTIONS = ["get_subtree returns the provider and all its descendants",
+ASSUMPTIONS = ["get_subtree returns the provider and all its descendants "
+               "(its shape - tree members from the in_tree filter, children "
+               "filed under their parent, recursion - is R9.7/R9.9; the SQL "
+               "engine's evaluation of the filter is assumed)",
                "provider_ids_from_uuid never reports a provider without a "
                "root (root_provider_id is populated for every row)"]
 
@@ -631,9 +634,27 @@ def r97(ctx, R):
 _run_c09 = run
 
 
+def r99(ctx, R):
+    """get_subtree (loop check, root rewrite) starts from the providers the
+    in_tree filter of the provider listing returns: that filter must select
+    exactly the providers whose root is the root of the named provider -
+    the reviewed clause and SQL shape of the listing query (R13.2 / R13.5
+    read for this property)."""
+    from psa import sqlshape
+    from psa.rules import c13
+    n = C.reuse_obligations(
+        ctx, R, c13.r132, 'R9.9',
+        select=lambda o: o.construct.startswith('filter:in_tree')
+        or o.construct == 'provider-alias')
+    n += sqlshape.shape_rule(ctx, R, 'R9.9', [
+        RPM + ':_get_all_by_filters_from_db'])
+    R.count('R9.9', n, 4)
+
+
 def run(ctx, R):
     _run_c09(ctx, R)
     r97(ctx, R)
+    r99(ctx, R)
     # R9.8: the loop / self-parent guards compare request text with stored
     # uuids in Python; they mean something only if what is bound is what is
     # stored
